@@ -21,6 +21,10 @@ pub enum Backend {
     Bio,
     Hybrid,
     HybridNoPre,
+    /// the biodivine object built WITH the stable-model rewriting (what `--lib biodivine --stmrew` uses for every section)
+    BioRw,
+    /// ... and the naive object derived from it (hybrid arm with --stmrew)
+    HybridRw,
 }
 impl Backend {
     pub fn name(&self) -> &'static str {
@@ -29,6 +33,8 @@ impl Backend {
             Backend::Bio => "bio",
             Backend::Hybrid => "hybrid",
             Backend::HybridNoPre => "hybrid_nopre",
+            Backend::BioRw => "bio_rw",
+            Backend::HybridRw => "hybrid_rw",
         }
     }
 }
@@ -39,7 +45,8 @@ pub fn build_adf(parser: &AdfParser, b: Backend) -> Adf {
         Backend::Native => Adf::from_parser(parser),
         Backend::Hybrid => BdAdf::from_parser(parser).hybrid_step(),
         Backend::HybridNoPre => BdAdf::from_parser(parser).hybrid_step_opt(false),
-        Backend::Bio => unreachable!(),
+        Backend::HybridRw => BdAdf::from_parser_with_stm_rewrite(parser).hybrid_step(),
+        Backend::Bio | Backend::BioRw => unreachable!(),
     }
 }
 
@@ -173,8 +180,8 @@ pub fn exec_call(text: &str, cs: &CallSpec, n: usize) -> CallRes {
     parser.parse()(text).expect("harness text must parse");
     let mut ch = "na";
     let mut hcalls = 0usize;
-    if cs.b == Backend::Bio {
-        let bio = if cs.c == "rew_pre" { BdAdf::from_parser_with_stm_rewrite(&parser) } else { BdAdf::from_parser(&parser) };
+    if cs.b == Backend::Bio || cs.b == Backend::BioRw {
+        let bio = if cs.c == "rew_pre" || cs.b == Backend::BioRw { BdAdf::from_parser_with_stm_rewrite(&parser) } else { BdAdf::from_parser(&parser) };
         let names = parser.var_container().names().read().unwrap().clone();
         let r: Vec<Vec<Term>> = match cs.c {
             "grounded" => vec![bio.grounded()],
@@ -266,19 +273,20 @@ pub fn call_specs(props: &[String], rng: &mut StdRng, n: usize, rich: bool) -> V
     let naive3 = [Backend::Native, Backend::Hybrid, Backend::HybridNoPre];
     let has = |p: &str| props.iter().any(|x| x == p);
     let mk = |c: &'static str, b: Backend| CallSpec { c, b, h: "-".into(), seed: 0, script: vec![] };
+    let rw2 = [Backend::BioRw, Backend::HybridRw];
     if has("C01") {
-        for b in all4 {
-            v.push(mk("grounded", b));
+        for b in all4.iter().chain(rw2.iter()) {
+            v.push(mk("grounded", *b));
         }
     }
     if has("C02") {
-        for b in all4 {
-            v.push(mk("complete", b));
+        for b in all4.iter().chain(rw2.iter()) {
+            v.push(mk("complete", *b));
         }
     }
     if has("C03") {
-        for b in all4 {
-            v.push(mk("stable", b));
+        for b in all4.iter().chain(rw2.iter()) {
+            v.push(mk("stable", *b));
         }
         for b in naive3 {
             v.push(mk("prefilter", b));
@@ -608,6 +616,8 @@ pub fn spec_from_json(v: &Value) -> CallSpec {
         "native" => Backend::Native,
         "bio" => Backend::Bio,
         "hybrid" => Backend::Hybrid,
+        "bio_rw" => Backend::BioRw,
+        "hybrid_rw" => Backend::HybridRw,
         _ => Backend::HybridNoPre,
     };
     CallSpec {
